@@ -584,8 +584,29 @@ C09OO ==
   IF Scope = "c09full" THEN C09OuterOrigs
   ELSE {<<-1, 0, 0, -1>>, <<0, 1, 1, 0>>, <<0, 2, 0, -1>>, <<1, 1, 0, -1>>}
 
+(* names: the outer and the inner map share name strings, the inner table     *)
+(* repeats one, three named segments in every combination - the global name   *)
+(* table must hand every string one index                                     *)
+C09NSms(osegs, isegs) ==
+  [k |-> "sms", b |-> <<cA, cB, 99>>, name |-> InnerName,
+   map |-> [m |-> EncodeSegs(osegs), sources |-> <<InnerName, FileA>>,
+            contents |-> <<<<>>, ContentA>>,
+            names |-> <<Name0, Name1>>, root |-> <<>>, file |-> <<>>, dbg |-> <<>>],
+   inner |-> <<[m |-> EncodeSegs(isegs), sources |-> <<FileB>>,
+               contents |-> <<ContentB>>, names |-> <<Name0, Name0, Name1>>,
+               root |-> <<>>, file |-> <<>>, dbg |-> <<>>]>>,
+   osrc |-> <<<<120, 121, 122>>>>, remove |-> FALSE]
+C09NOuter(k) == {<<0, 1, k, n>> : n \in {-1, 0, 1}} \cup {<<1, 1, 0, n>> : n \in {0, 1}}
+C09NScope ==
+  IF Scope \notin {"c09", "c09full"} THEN {} ELSE
+  {C09Prog(C09NSms(<<Seg(1, 0, o1), Seg(1, 1, o2), Seg(1, 2, o3)>>,
+                   <<Seg(1, 0, <<0, 1, 0, i1>>), Seg(1, 1, <<0, 1, 1, i2>>), Seg(1, 2, <<0, 1, 2, i3>>)>>)) :
+     o1 \in C09NOuter(0), o2 \in C09NOuter(1), o3 \in C09NOuter(2),
+     i1 \in {-1, 0, 2}, i2 \in {-1, 0, 2}, i3 \in {-1, 1, 2}}
+
 C09Scope ==
   IF Scope \notin {"c09", "c09full"} THEN {} ELSE
+  C09NScope \cup
   {C09Prog(C09Sms(C09T1, o, i, TRUE, FALSE)) :
      o \in SegListsOver(C09T1, 2, C09OO), i \in SegListsOver(InnerX, 2, C09InnerOrigs)}
   \cup {C09Prog(C09Sms(C09T2, o, i, TRUE, FALSE)) :
